@@ -37,53 +37,48 @@ fn prefilled(fill: bool) -> (Sender<u8>, Receiver<u8>, u8) {
   (tx, rx, a)
 }
 
-// ---- gate: Sender ---------------------------------------------------------------------------------------
-fn gate_sender(which: u8) {
+// ---- gate: every public operation of a CLOSED handle fails with the Closed/Disconnected error of its type,
+// hands the value(s) back and leaves the channel untouched; close is idempotent; drop does not decrement again.
+fn gate_sender() {
   let (tx, rx, _a) = prefilled(false);
   assert!(tx.close().is_ok());
   let s0 = snap(&tx.shared);
   assert!(s0.1 == (1, 2));
   let x: u8 = kani::any();
   let y: u8 = kani::any();
-  match which {
-    0 => match tx.try_send(x) { Err(TrySendError::Closed(v)) => assert!(v == x), _ => panic!("closed Sender::try_send did not report Closed") },
-    1 => match tx.send(x) { Err(SendError::Closed) => {}, _ => panic!("closed Sender::send did not report Closed") },
-    2 => match tx.try_send_batch(vec![x, y]) {
-      Err(e) => { assert!(e.sent == 0 && e.unsent.len() == 2 && e.unsent[0] == x && e.unsent[1] == y); assert!(matches!(e.reason, BatchSendErrorReason::Closed)); }
-      _ => panic!("closed Sender::try_send_batch did not fail") },
-    3 => match tx.send_batch(vec![x, y]) {
-      Err(e) => { assert!(e.sent == 0 && e.unsent.len() == 2 && e.unsent[0] == x && e.unsent[1] == y); }
-      _ => panic!("closed Sender::send_batch did not fail") },
-    4 => { let mut v = vec![x, y]; match tx.try_send_batch_mut(&mut v) { Err(SendError::Closed) => assert!(v.len() == 2 && v[0] == x && v[1] == y), _ => panic!("closed Sender::try_send_batch_mut did not report Closed") } },
-    5 => { let mut v = vec![x, y]; match tx.send_batch_mut(&mut v) { Err(SendError::Closed) => assert!(v.len() == 2 && v[0] == x && v[1] == y), _ => panic!("closed Sender::send_batch_mut did not report Closed") } },
-    _ => { assert!(tx.close().is_err()); } // idempotent close: second call reports CloseError
-  }
+  match tx.try_send(x) { Err(TrySendError::Closed(v)) => assert!(v == x), _ => panic!("closed Sender::try_send did not report Closed") }
+  match tx.send(x) { Err(SendError::Closed) => {}, _ => panic!("closed Sender::send did not report Closed") }
+  match tx.try_send_batch(vec![x, y]) {
+    Err(e) => { assert!(e.sent == 0 && e.unsent.len() == 2 && e.unsent[0] == x && e.unsent[1] == y); assert!(matches!(e.reason, BatchSendErrorReason::Closed)); }
+    _ => panic!("closed Sender::try_send_batch did not fail") }
+  match tx.send_batch(vec![x, y]) {
+    Err(e) => { assert!(e.sent == 0 && e.unsent.len() == 2 && e.unsent[0] == x && e.unsent[1] == y); }
+    _ => panic!("closed Sender::send_batch did not fail") }
+  { let mut v = vec![x, y]; match tx.try_send_batch_mut(&mut v) { Err(SendError::Closed) => assert!(v.len() == 2 && v[0] == x && v[1] == y), _ => panic!("closed Sender::try_send_batch_mut did not report Closed") } }
+  { let mut v = vec![x, y]; match tx.send_batch_mut(&mut v) { Err(SendError::Closed) => assert!(v.len() == 2 && v[0] == x && v[1] == y), _ => panic!("closed Sender::send_batch_mut did not report Closed") } }
+  assert!(tx.close().is_err()); // idempotent close: second call reports CloseError
   assert!(snap(&tx.shared) == s0);
   drop(tx); // Drop of a closed handle must not decrement again
   assert!(snap(&rx.shared) == s0);
-  // the other handles are unaffected
   assert!(!rx.is_closed());
   std::mem::forget(rx);
   kani::cover!(true, "END");
 }
 
-// ---- gate: Receiver -------------------------------------------------------------------------------------
-fn gate_receiver(which: u8) {
+fn gate_receiver() {
   let (tx, rx, _a) = prefilled(true);
   assert!(rx.close().is_ok());
   let s0 = snap(&rx.shared);
-  assert!(s0.1 == (2, 1));
-  match which {
-    0 => assert!(matches!(rx.try_recv(), Err(TryRecvError::Disconnected))),
-    1 => assert!(matches!(rx.recv(), Err(RecvError::Disconnected))),
-    2 => assert!(matches!(rx.try_recv_batch(2), Err(TryRecvError::Disconnected))),
-    3 => { let mut out = Vec::new(); assert!(matches!(rx.try_recv_batch_mut(&mut out, 2), Err(TryRecvError::Disconnected))); assert!(out.is_empty()); },
-    4 => assert!(matches!(rx.recv_batch(2), Err(RecvError::Disconnected))),
-    5 => { let mut out = Vec::new(); assert!(matches!(rx.recv_batch_mut(&mut out, 2), Err(RecvError::Disconnected))); assert!(out.is_empty()); },
-    6 => assert!(matches!(rx.recv_timeout(std::time::Duration::from_millis(5)), Err(RecvErrorTimeout::Disconnected))),
-    _ => { assert!(rx.close().is_err()); }
-  }
-  assert!(snap(&rx.shared) == s0);
+  assert!(s0.1 == (2, 1) && (s0.0).1 == 1);
+  assert!(matches!(rx.try_recv(), Err(TryRecvError::Disconnected)));
+  assert!(matches!(rx.recv(), Err(RecvError::Disconnected)));
+  assert!(matches!(rx.try_recv_batch(2), Err(TryRecvError::Disconnected)));
+  { let mut out = Vec::new(); assert!(matches!(rx.try_recv_batch_mut(&mut out, 2), Err(TryRecvError::Disconnected))); assert!(out.is_empty()); }
+  assert!(matches!(rx.recv_batch(2), Err(RecvError::Disconnected)));
+  { let mut out = Vec::new(); assert!(matches!(rx.recv_batch_mut(&mut out, 2), Err(RecvError::Disconnected))); assert!(out.is_empty()); }
+  assert!(matches!(rx.recv_timeout(std::time::Duration::from_millis(5)), Err(RecvErrorTimeout::Disconnected)));
+  assert!(rx.close().is_err());
+  assert!(snap(&rx.shared) == s0); // in particular the buffered value is still there
   drop(rx);
   assert!(snap(&tx.shared) == s0);
   assert!(!tx.is_closed());
@@ -99,29 +94,26 @@ fn prefilled_async(fill: bool) -> (AsyncSender<u8>, AsyncReceiver<u8>, u8) {
   (tx, rx, a)
 }
 
-// ---- gate: AsyncSender ----------------------------------------------------------------------------------
-fn gate_async_sender(which: u8) {
+fn gate_async_sender() {
   let (tx, rx, _a) = prefilled_async(false);
   assert!(tx.close().is_ok());
   let s0 = snap(&tx.shared);
   assert!(s0.1 == (1, 2));
   let x: u8 = kani::any();
   let y: u8 = kani::any();
-  match which {
-    0 => match tx.try_send(x) { Err(TrySendError::Closed(v)) => assert!(v == x), _ => panic!("closed AsyncSender::try_send did not report Closed") },
-    1 => { let f = tx.send(x); let mut f = std::pin::pin!(f); match poll_once(f.as_mut(), 0) { Poll::Ready(Err(SendError::Closed)) => {}, _ => panic!("closed AsyncSender::send did not resolve to Closed") } },
-    2 => match tx.try_send_batch(vec![x, y]) {
-      Err(e) => { assert!(e.sent == 0 && e.unsent.len() == 2 && e.unsent[0] == x && e.unsent[1] == y); assert!(matches!(e.reason, BatchSendErrorReason::Closed)); }
-      _ => panic!("closed AsyncSender::try_send_batch did not fail") },
-    3 => { let f = tx.send_batch(vec![x, y]); let mut f = std::pin::pin!(f); match poll_once(f.as_mut(), 0) {
+  match tx.try_send(x) { Err(TrySendError::Closed(v)) => assert!(v == x), _ => panic!("closed AsyncSender::try_send did not report Closed") }
+  { let f = tx.send(x); let mut f = std::pin::pin!(f); match poll_once(f.as_mut(), 0) { Poll::Ready(Err(SendError::Closed)) => {}, _ => panic!("closed AsyncSender::send did not resolve to Closed") } }
+  match tx.try_send_batch(vec![x, y]) {
+    Err(e) => { assert!(e.sent == 0 && e.unsent.len() == 2 && e.unsent[0] == x && e.unsent[1] == y); assert!(matches!(e.reason, BatchSendErrorReason::Closed)); }
+    _ => panic!("closed AsyncSender::try_send_batch did not fail") }
+  { let f = tx.send_batch(vec![x, y]); let mut f = std::pin::pin!(f); match poll_once(f.as_mut(), 0) {
       Poll::Ready(Err(e)) => assert!(e.sent == 0 && e.unsent.len() == 2 && e.unsent[0] == x && e.unsent[1] == y),
-      _ => panic!("closed AsyncSender::send_batch did not resolve to an error") } },
-    4 => { let mut v = vec![x, y]; match tx.try_send_batch_mut(&mut v) { Err(SendError::Closed) => assert!(v.len() == 2 && v[0] == x && v[1] == y), _ => panic!("closed AsyncSender::try_send_batch_mut did not report Closed") } },
-    5 => { let mut v = vec![x, y]; { let f = tx.send_batch_mut(&mut v); let mut f = std::pin::pin!(f); match poll_once(f.as_mut(), 0) {
-      Poll::Ready(Err(SendError::Closed)) => {}, _ => panic!("closed AsyncSender::send_batch_mut did not resolve to Closed") } } assert!(v.len() == 2 && v[0] == x && v[1] == y); },
-    _ => { assert!(tx.close().is_err()); }
-  }
-  assert!(snap(&tx.shared) == s0);
+      _ => panic!("closed AsyncSender::send_batch did not resolve to an error") } }
+  { let mut v = vec![x, y]; match tx.try_send_batch_mut(&mut v) { Err(SendError::Closed) => assert!(v.len() == 2 && v[0] == x && v[1] == y), _ => panic!("closed AsyncSender::try_send_batch_mut did not report Closed") } }
+  { let mut v = vec![x, y]; { let f = tx.send_batch_mut(&mut v); let mut f = std::pin::pin!(f); match poll_once(f.as_mut(), 0) {
+      Poll::Ready(Err(SendError::Closed)) => {}, _ => panic!("closed AsyncSender::send_batch_mut did not resolve to Closed") } } assert!(v.len() == 2 && v[0] == x && v[1] == y); }
+  assert!(tx.close().is_err());
+  assert!(snap(&tx.shared) == s0 && wakes(0) == 0);
   drop(tx);
   assert!(snap(&rx.shared) == s0);
   assert!(!rx.is_closed());
@@ -129,21 +121,18 @@ fn gate_async_sender(which: u8) {
   kani::cover!(true, "END");
 }
 
-// ---- gate: AsyncReceiver --------------------------------------------------------------------------------
-fn gate_async_receiver(which: u8) {
+fn gate_async_receiver() {
   let (tx, rx, _a) = prefilled_async(true);
   assert!(rx.close().is_ok());
   let s0 = snap(&rx.shared);
-  assert!(s0.1 == (2, 1));
-  match which {
-    0 => assert!(matches!(rx.try_recv(), Err(TryRecvError::Disconnected))),
-    1 => { let f = rx.recv(); let mut f = std::pin::pin!(f); assert!(matches!(poll_once(f.as_mut(), 0), Poll::Ready(Err(RecvError::Disconnected)))); },
-    2 => assert!(matches!(rx.try_recv_batch(2), Err(TryRecvError::Disconnected))),
-    3 => { let mut out = Vec::new(); assert!(matches!(rx.try_recv_batch_mut(&mut out, 2), Err(TryRecvError::Disconnected))); assert!(out.is_empty()); },
-    4 => { let f = rx.recv_batch(2); let mut f = std::pin::pin!(f); assert!(matches!(poll_once(f.as_mut(), 0), Poll::Ready(Err(RecvError::Disconnected)))); },
-    5 => { let mut out = Vec::new(); { let f = rx.recv_batch_mut(&mut out, 2); let mut f = std::pin::pin!(f); assert!(matches!(poll_once(f.as_mut(), 0), Poll::Ready(Err(RecvError::Disconnected)))); } assert!(out.is_empty()); },
-    _ => { assert!(rx.close().is_err()); }
-  }
+  assert!(s0.1 == (2, 1) && (s0.0).1 == 1);
+  assert!(matches!(rx.try_recv(), Err(TryRecvError::Disconnected)));
+  { let f = rx.recv(); let mut f = std::pin::pin!(f); assert!(matches!(poll_once(f.as_mut(), 0), Poll::Ready(Err(RecvError::Disconnected)))); }
+  assert!(matches!(rx.try_recv_batch(2), Err(TryRecvError::Disconnected)));
+  { let mut out = Vec::new(); assert!(matches!(rx.try_recv_batch_mut(&mut out, 2), Err(TryRecvError::Disconnected))); assert!(out.is_empty()); }
+  { let f = rx.recv_batch(2); let mut f = std::pin::pin!(f); assert!(matches!(poll_once(f.as_mut(), 0), Poll::Ready(Err(RecvError::Disconnected)))); }
+  { let mut out = Vec::new(); { let f = rx.recv_batch_mut(&mut out, 2); let mut f = std::pin::pin!(f); assert!(matches!(poll_once(f.as_mut(), 0), Poll::Ready(Err(RecvError::Disconnected)))); } assert!(out.is_empty()); }
+  assert!(rx.close().is_err());
   assert!(snap(&rx.shared) == s0);
   drop(rx);
   assert!(snap(&tx.shared) == s0);
@@ -259,14 +248,13 @@ fn count_receivers(by_drop: bool) {
   assert!(tx.shared.k_counts() == (1, 0));
   let b: u8 = kani::any();
   match tx.try_send(b) { Err(TrySendError::Closed(v)) => assert!(v == b), _ => panic!("send after the last receiver is gone did not report Closed") }
-  match tx.send(b) { Err(SendError::Closed) => {}, _ => panic!("blocking send after the last receiver is gone did not report Closed") }
   let mut v = vec![b];
   match tx.try_send_batch_mut(&mut v) { Err(SendError::Closed) => assert!(v.len() == 1 && v[0] == b), _ => panic!("try_send_batch_mut after the last receiver is gone") }
   std::mem::forget(tx);
   kani::cover!(true, "END");
 }
 
-// @obligation id=c04.mpmc.gate.Sender.try_send props=C04,C01 kind=hist tier=quick bound="bounded(1), empty for sender gates and holding one item (any u8) for receiver gates and conversions, side counts raised to 2 so that nothing disconnects; closed Sender, one call of try_send"
+// @obligation id=c04.mpmc.gate.Sender props=C04,C01 kind=hist tier=quick bound="bounded(1), empty for sender gates and holding one item (any u8) for receiver gates and conversions, side counts raised to 2 so that nothing disconnects; closed Sender: try_send, send, try_send_batch, send_batch, try_send_batch_mut, send_batch_mut, second close, drop - one call each"
 #[kani::proof]
 #[kani::stub(std::thread::current::current, crate::verif_k_stubs::stub_thread_current)]
 #[kani::stub(parking_lot::RawMutex::lock_slow, crate::verif_k_stubs::stub_lock_slow)]
@@ -276,9 +264,9 @@ fn count_receivers(by_drop: bool) {
 #[kani::stub(std::thread::park_timeout, crate::verif_k_stubs::stub_park_timeout)]
 #[kani::stub(std::time::Instant::now, stub_instant_now)]
 #[kani::unwind(6)]
-fn ob_c04_mpmc_gate_sender_try_send() { gate_sender(0); }
+fn ob_c04_mpmc_gate_sender() { gate_sender(); }
 
-// @obligation id=c04.mpmc.gate.Sender.send props=C04,C01 kind=hist tier=quick bound="bounded(1), empty for sender gates and holding one item (any u8) for receiver gates and conversions, side counts raised to 2 so that nothing disconnects; closed Sender, one call of send"
+// @obligation id=c04.mpmc.gate.Receiver props=C04,C01 kind=hist tier=quick bound="bounded(1), empty for sender gates and holding one item (any u8) for receiver gates and conversions, side counts raised to 2 so that nothing disconnects; closed Receiver: try_recv, recv, try_recv_batch, try_recv_batch_mut, recv_batch, recv_batch_mut, recv_timeout, second close, drop - one call each"
 #[kani::proof]
 #[kani::stub(std::thread::current::current, crate::verif_k_stubs::stub_thread_current)]
 #[kani::stub(parking_lot::RawMutex::lock_slow, crate::verif_k_stubs::stub_lock_slow)]
@@ -288,9 +276,9 @@ fn ob_c04_mpmc_gate_sender_try_send() { gate_sender(0); }
 #[kani::stub(std::thread::park_timeout, crate::verif_k_stubs::stub_park_timeout)]
 #[kani::stub(std::time::Instant::now, stub_instant_now)]
 #[kani::unwind(6)]
-fn ob_c04_mpmc_gate_sender_send() { gate_sender(1); }
+fn ob_c04_mpmc_gate_receiver() { gate_receiver(); }
 
-// @obligation id=c04.mpmc.gate.Sender.try_send_batch props=C04,C01 kind=hist tier=quick bound="bounded(1), empty for sender gates and holding one item (any u8) for receiver gates and conversions, side counts raised to 2 so that nothing disconnects; closed Sender, one call of try_send_batch"
+// @obligation id=c04.mpmc.gate.AsyncSender props=C04,C01 kind=hist tier=quick bound="bounded(1), empty for sender gates and holding one item (any u8) for receiver gates and conversions, side counts raised to 2 so that nothing disconnects; closed AsyncSender: try_send, send, try_send_batch, send_batch, try_send_batch_mut, send_batch_mut (futures polled once), second close, drop"
 #[kani::proof]
 #[kani::stub(std::thread::current::current, crate::verif_k_stubs::stub_thread_current)]
 #[kani::stub(parking_lot::RawMutex::lock_slow, crate::verif_k_stubs::stub_lock_slow)]
@@ -300,9 +288,9 @@ fn ob_c04_mpmc_gate_sender_send() { gate_sender(1); }
 #[kani::stub(std::thread::park_timeout, crate::verif_k_stubs::stub_park_timeout)]
 #[kani::stub(std::time::Instant::now, stub_instant_now)]
 #[kani::unwind(6)]
-fn ob_c04_mpmc_gate_sender_try_send_batch() { gate_sender(2); }
+fn ob_c04_mpmc_gate_async_sender() { gate_async_sender(); }
 
-// @obligation id=c04.mpmc.gate.Sender.send_batch props=C04,C01 kind=hist tier=quick bound="bounded(1), empty for sender gates and holding one item (any u8) for receiver gates and conversions, side counts raised to 2 so that nothing disconnects; closed Sender, one call of send_batch"
+// @obligation id=c04.mpmc.gate.AsyncReceiver props=C04,C01 kind=hist tier=quick bound="bounded(1), empty for sender gates and holding one item (any u8) for receiver gates and conversions, side counts raised to 2 so that nothing disconnects; closed AsyncReceiver: try_recv, recv, try_recv_batch, try_recv_batch_mut, recv_batch, recv_batch_mut (futures polled once), second close, drop"
 #[kani::proof]
 #[kani::stub(std::thread::current::current, crate::verif_k_stubs::stub_thread_current)]
 #[kani::stub(parking_lot::RawMutex::lock_slow, crate::verif_k_stubs::stub_lock_slow)]
@@ -312,307 +300,7 @@ fn ob_c04_mpmc_gate_sender_try_send_batch() { gate_sender(2); }
 #[kani::stub(std::thread::park_timeout, crate::verif_k_stubs::stub_park_timeout)]
 #[kani::stub(std::time::Instant::now, stub_instant_now)]
 #[kani::unwind(6)]
-fn ob_c04_mpmc_gate_sender_send_batch() { gate_sender(3); }
-
-// @obligation id=c04.mpmc.gate.Sender.try_send_batch_mut props=C04,C01 kind=hist tier=quick bound="bounded(1), empty for sender gates and holding one item (any u8) for receiver gates and conversions, side counts raised to 2 so that nothing disconnects; closed Sender, one call of try_send_batch_mut"
-#[kani::proof]
-#[kani::stub(std::thread::current::current, crate::verif_k_stubs::stub_thread_current)]
-#[kani::stub(parking_lot::RawMutex::lock_slow, crate::verif_k_stubs::stub_lock_slow)]
-#[kani::stub(parking_lot::RawMutex::unlock_slow, crate::verif_k_stubs::stub_unlock_slow)]
-#[kani::stub(crate::sync::mutex::HybridMutex::lock_slow, crate::mpmc_v2::core::verif_k_mpmc_core::stub_hm_lock_slow)]
-#[kani::stub(std::thread::park, crate::verif_k_stubs::stub_park)]
-#[kani::stub(std::thread::park_timeout, crate::verif_k_stubs::stub_park_timeout)]
-#[kani::stub(std::time::Instant::now, stub_instant_now)]
-#[kani::unwind(6)]
-fn ob_c04_mpmc_gate_sender_try_send_batch_mut() { gate_sender(4); }
-
-// @obligation id=c04.mpmc.gate.Sender.send_batch_mut props=C04,C01 kind=hist tier=quick bound="bounded(1), empty for sender gates and holding one item (any u8) for receiver gates and conversions, side counts raised to 2 so that nothing disconnects; closed Sender, one call of send_batch_mut"
-#[kani::proof]
-#[kani::stub(std::thread::current::current, crate::verif_k_stubs::stub_thread_current)]
-#[kani::stub(parking_lot::RawMutex::lock_slow, crate::verif_k_stubs::stub_lock_slow)]
-#[kani::stub(parking_lot::RawMutex::unlock_slow, crate::verif_k_stubs::stub_unlock_slow)]
-#[kani::stub(crate::sync::mutex::HybridMutex::lock_slow, crate::mpmc_v2::core::verif_k_mpmc_core::stub_hm_lock_slow)]
-#[kani::stub(std::thread::park, crate::verif_k_stubs::stub_park)]
-#[kani::stub(std::thread::park_timeout, crate::verif_k_stubs::stub_park_timeout)]
-#[kani::stub(std::time::Instant::now, stub_instant_now)]
-#[kani::unwind(6)]
-fn ob_c04_mpmc_gate_sender_send_batch_mut() { gate_sender(5); }
-
-// @obligation id=c04.mpmc.gate.Sender.close2 props=C04,C01 kind=hist tier=quick bound="bounded(1), empty for sender gates and holding one item (any u8) for receiver gates and conversions, side counts raised to 2 so that nothing disconnects; closed Sender, one call of close2"
-#[kani::proof]
-#[kani::stub(std::thread::current::current, crate::verif_k_stubs::stub_thread_current)]
-#[kani::stub(parking_lot::RawMutex::lock_slow, crate::verif_k_stubs::stub_lock_slow)]
-#[kani::stub(parking_lot::RawMutex::unlock_slow, crate::verif_k_stubs::stub_unlock_slow)]
-#[kani::stub(crate::sync::mutex::HybridMutex::lock_slow, crate::mpmc_v2::core::verif_k_mpmc_core::stub_hm_lock_slow)]
-#[kani::stub(std::thread::park, crate::verif_k_stubs::stub_park)]
-#[kani::stub(std::thread::park_timeout, crate::verif_k_stubs::stub_park_timeout)]
-#[kani::stub(std::time::Instant::now, stub_instant_now)]
-#[kani::unwind(6)]
-fn ob_c04_mpmc_gate_sender_close2() { gate_sender(6); }
-
-// @obligation id=c04.mpmc.gate.Receiver.try_recv props=C04,C01 kind=hist tier=quick bound="bounded(1), empty for sender gates and holding one item (any u8) for receiver gates and conversions, side counts raised to 2 so that nothing disconnects; closed Receiver, one call of try_recv"
-#[kani::proof]
-#[kani::stub(std::thread::current::current, crate::verif_k_stubs::stub_thread_current)]
-#[kani::stub(parking_lot::RawMutex::lock_slow, crate::verif_k_stubs::stub_lock_slow)]
-#[kani::stub(parking_lot::RawMutex::unlock_slow, crate::verif_k_stubs::stub_unlock_slow)]
-#[kani::stub(crate::sync::mutex::HybridMutex::lock_slow, crate::mpmc_v2::core::verif_k_mpmc_core::stub_hm_lock_slow)]
-#[kani::stub(std::thread::park, crate::verif_k_stubs::stub_park)]
-#[kani::stub(std::thread::park_timeout, crate::verif_k_stubs::stub_park_timeout)]
-#[kani::stub(std::time::Instant::now, stub_instant_now)]
-#[kani::unwind(6)]
-fn ob_c04_mpmc_gate_receiver_try_recv() { gate_receiver(0); }
-
-// @obligation id=c04.mpmc.gate.Receiver.recv props=C04,C01 kind=hist tier=quick bound="bounded(1), empty for sender gates and holding one item (any u8) for receiver gates and conversions, side counts raised to 2 so that nothing disconnects; closed Receiver, one call of recv"
-#[kani::proof]
-#[kani::stub(std::thread::current::current, crate::verif_k_stubs::stub_thread_current)]
-#[kani::stub(parking_lot::RawMutex::lock_slow, crate::verif_k_stubs::stub_lock_slow)]
-#[kani::stub(parking_lot::RawMutex::unlock_slow, crate::verif_k_stubs::stub_unlock_slow)]
-#[kani::stub(crate::sync::mutex::HybridMutex::lock_slow, crate::mpmc_v2::core::verif_k_mpmc_core::stub_hm_lock_slow)]
-#[kani::stub(std::thread::park, crate::verif_k_stubs::stub_park)]
-#[kani::stub(std::thread::park_timeout, crate::verif_k_stubs::stub_park_timeout)]
-#[kani::stub(std::time::Instant::now, stub_instant_now)]
-#[kani::unwind(6)]
-fn ob_c04_mpmc_gate_receiver_recv() { gate_receiver(1); }
-
-// @obligation id=c04.mpmc.gate.Receiver.try_recv_batch props=C04,C01 kind=hist tier=quick bound="bounded(1), empty for sender gates and holding one item (any u8) for receiver gates and conversions, side counts raised to 2 so that nothing disconnects; closed Receiver, one call of try_recv_batch"
-#[kani::proof]
-#[kani::stub(std::thread::current::current, crate::verif_k_stubs::stub_thread_current)]
-#[kani::stub(parking_lot::RawMutex::lock_slow, crate::verif_k_stubs::stub_lock_slow)]
-#[kani::stub(parking_lot::RawMutex::unlock_slow, crate::verif_k_stubs::stub_unlock_slow)]
-#[kani::stub(crate::sync::mutex::HybridMutex::lock_slow, crate::mpmc_v2::core::verif_k_mpmc_core::stub_hm_lock_slow)]
-#[kani::stub(std::thread::park, crate::verif_k_stubs::stub_park)]
-#[kani::stub(std::thread::park_timeout, crate::verif_k_stubs::stub_park_timeout)]
-#[kani::stub(std::time::Instant::now, stub_instant_now)]
-#[kani::unwind(6)]
-fn ob_c04_mpmc_gate_receiver_try_recv_batch() { gate_receiver(2); }
-
-// @obligation id=c04.mpmc.gate.Receiver.try_recv_batch_mut props=C04,C01 kind=hist tier=quick bound="bounded(1), empty for sender gates and holding one item (any u8) for receiver gates and conversions, side counts raised to 2 so that nothing disconnects; closed Receiver, one call of try_recv_batch_mut"
-#[kani::proof]
-#[kani::stub(std::thread::current::current, crate::verif_k_stubs::stub_thread_current)]
-#[kani::stub(parking_lot::RawMutex::lock_slow, crate::verif_k_stubs::stub_lock_slow)]
-#[kani::stub(parking_lot::RawMutex::unlock_slow, crate::verif_k_stubs::stub_unlock_slow)]
-#[kani::stub(crate::sync::mutex::HybridMutex::lock_slow, crate::mpmc_v2::core::verif_k_mpmc_core::stub_hm_lock_slow)]
-#[kani::stub(std::thread::park, crate::verif_k_stubs::stub_park)]
-#[kani::stub(std::thread::park_timeout, crate::verif_k_stubs::stub_park_timeout)]
-#[kani::stub(std::time::Instant::now, stub_instant_now)]
-#[kani::unwind(6)]
-fn ob_c04_mpmc_gate_receiver_try_recv_batch_mut() { gate_receiver(3); }
-
-// @obligation id=c04.mpmc.gate.Receiver.recv_batch props=C04,C01 kind=hist tier=quick bound="bounded(1), empty for sender gates and holding one item (any u8) for receiver gates and conversions, side counts raised to 2 so that nothing disconnects; closed Receiver, one call of recv_batch"
-#[kani::proof]
-#[kani::stub(std::thread::current::current, crate::verif_k_stubs::stub_thread_current)]
-#[kani::stub(parking_lot::RawMutex::lock_slow, crate::verif_k_stubs::stub_lock_slow)]
-#[kani::stub(parking_lot::RawMutex::unlock_slow, crate::verif_k_stubs::stub_unlock_slow)]
-#[kani::stub(crate::sync::mutex::HybridMutex::lock_slow, crate::mpmc_v2::core::verif_k_mpmc_core::stub_hm_lock_slow)]
-#[kani::stub(std::thread::park, crate::verif_k_stubs::stub_park)]
-#[kani::stub(std::thread::park_timeout, crate::verif_k_stubs::stub_park_timeout)]
-#[kani::stub(std::time::Instant::now, stub_instant_now)]
-#[kani::unwind(6)]
-fn ob_c04_mpmc_gate_receiver_recv_batch() { gate_receiver(4); }
-
-// @obligation id=c04.mpmc.gate.Receiver.recv_batch_mut props=C04,C01 kind=hist tier=quick bound="bounded(1), empty for sender gates and holding one item (any u8) for receiver gates and conversions, side counts raised to 2 so that nothing disconnects; closed Receiver, one call of recv_batch_mut"
-#[kani::proof]
-#[kani::stub(std::thread::current::current, crate::verif_k_stubs::stub_thread_current)]
-#[kani::stub(parking_lot::RawMutex::lock_slow, crate::verif_k_stubs::stub_lock_slow)]
-#[kani::stub(parking_lot::RawMutex::unlock_slow, crate::verif_k_stubs::stub_unlock_slow)]
-#[kani::stub(crate::sync::mutex::HybridMutex::lock_slow, crate::mpmc_v2::core::verif_k_mpmc_core::stub_hm_lock_slow)]
-#[kani::stub(std::thread::park, crate::verif_k_stubs::stub_park)]
-#[kani::stub(std::thread::park_timeout, crate::verif_k_stubs::stub_park_timeout)]
-#[kani::stub(std::time::Instant::now, stub_instant_now)]
-#[kani::unwind(6)]
-fn ob_c04_mpmc_gate_receiver_recv_batch_mut() { gate_receiver(5); }
-
-// @obligation id=c04.mpmc.gate.Receiver.recv_timeout props=C04,C01 kind=hist tier=quick bound="bounded(1), empty for sender gates and holding one item (any u8) for receiver gates and conversions, side counts raised to 2 so that nothing disconnects; closed Receiver, one call of recv_timeout"
-#[kani::proof]
-#[kani::stub(std::thread::current::current, crate::verif_k_stubs::stub_thread_current)]
-#[kani::stub(parking_lot::RawMutex::lock_slow, crate::verif_k_stubs::stub_lock_slow)]
-#[kani::stub(parking_lot::RawMutex::unlock_slow, crate::verif_k_stubs::stub_unlock_slow)]
-#[kani::stub(crate::sync::mutex::HybridMutex::lock_slow, crate::mpmc_v2::core::verif_k_mpmc_core::stub_hm_lock_slow)]
-#[kani::stub(std::thread::park, crate::verif_k_stubs::stub_park)]
-#[kani::stub(std::thread::park_timeout, crate::verif_k_stubs::stub_park_timeout)]
-#[kani::stub(std::time::Instant::now, stub_instant_now)]
-#[kani::unwind(6)]
-fn ob_c04_mpmc_gate_receiver_recv_timeout() { gate_receiver(6); }
-
-// @obligation id=c04.mpmc.gate.Receiver.close2 props=C04,C01 kind=hist tier=quick bound="bounded(1), empty for sender gates and holding one item (any u8) for receiver gates and conversions, side counts raised to 2 so that nothing disconnects; closed Receiver, one call of close2"
-#[kani::proof]
-#[kani::stub(std::thread::current::current, crate::verif_k_stubs::stub_thread_current)]
-#[kani::stub(parking_lot::RawMutex::lock_slow, crate::verif_k_stubs::stub_lock_slow)]
-#[kani::stub(parking_lot::RawMutex::unlock_slow, crate::verif_k_stubs::stub_unlock_slow)]
-#[kani::stub(crate::sync::mutex::HybridMutex::lock_slow, crate::mpmc_v2::core::verif_k_mpmc_core::stub_hm_lock_slow)]
-#[kani::stub(std::thread::park, crate::verif_k_stubs::stub_park)]
-#[kani::stub(std::thread::park_timeout, crate::verif_k_stubs::stub_park_timeout)]
-#[kani::stub(std::time::Instant::now, stub_instant_now)]
-#[kani::unwind(6)]
-fn ob_c04_mpmc_gate_receiver_close2() { gate_receiver(7); }
-
-// @obligation id=c04.mpmc.gate.AsyncSender.try_send props=C04,C01 kind=hist tier=quick bound="bounded(1), empty for sender gates and holding one item (any u8) for receiver gates and conversions, side counts raised to 2 so that nothing disconnects; closed AsyncSender, one call (futures polled once) of try_send"
-#[kani::proof]
-#[kani::stub(std::thread::current::current, crate::verif_k_stubs::stub_thread_current)]
-#[kani::stub(parking_lot::RawMutex::lock_slow, crate::verif_k_stubs::stub_lock_slow)]
-#[kani::stub(parking_lot::RawMutex::unlock_slow, crate::verif_k_stubs::stub_unlock_slow)]
-#[kani::stub(crate::sync::mutex::HybridMutex::lock_slow, crate::mpmc_v2::core::verif_k_mpmc_core::stub_hm_lock_slow)]
-#[kani::stub(std::thread::park, crate::verif_k_stubs::stub_park)]
-#[kani::stub(std::thread::park_timeout, crate::verif_k_stubs::stub_park_timeout)]
-#[kani::stub(std::time::Instant::now, stub_instant_now)]
-#[kani::unwind(6)]
-fn ob_c04_mpmc_gate_async_sender_try_send() { gate_async_sender(0); }
-
-// @obligation id=c04.mpmc.gate.AsyncSender.send props=C04,C01 kind=hist tier=quick bound="bounded(1), empty for sender gates and holding one item (any u8) for receiver gates and conversions, side counts raised to 2 so that nothing disconnects; closed AsyncSender, one call (futures polled once) of send"
-#[kani::proof]
-#[kani::stub(std::thread::current::current, crate::verif_k_stubs::stub_thread_current)]
-#[kani::stub(parking_lot::RawMutex::lock_slow, crate::verif_k_stubs::stub_lock_slow)]
-#[kani::stub(parking_lot::RawMutex::unlock_slow, crate::verif_k_stubs::stub_unlock_slow)]
-#[kani::stub(crate::sync::mutex::HybridMutex::lock_slow, crate::mpmc_v2::core::verif_k_mpmc_core::stub_hm_lock_slow)]
-#[kani::stub(std::thread::park, crate::verif_k_stubs::stub_park)]
-#[kani::stub(std::thread::park_timeout, crate::verif_k_stubs::stub_park_timeout)]
-#[kani::stub(std::time::Instant::now, stub_instant_now)]
-#[kani::unwind(6)]
-fn ob_c04_mpmc_gate_async_sender_send() { gate_async_sender(1); }
-
-// @obligation id=c04.mpmc.gate.AsyncSender.try_send_batch props=C04,C01 kind=hist tier=quick bound="bounded(1), empty for sender gates and holding one item (any u8) for receiver gates and conversions, side counts raised to 2 so that nothing disconnects; closed AsyncSender, one call (futures polled once) of try_send_batch"
-#[kani::proof]
-#[kani::stub(std::thread::current::current, crate::verif_k_stubs::stub_thread_current)]
-#[kani::stub(parking_lot::RawMutex::lock_slow, crate::verif_k_stubs::stub_lock_slow)]
-#[kani::stub(parking_lot::RawMutex::unlock_slow, crate::verif_k_stubs::stub_unlock_slow)]
-#[kani::stub(crate::sync::mutex::HybridMutex::lock_slow, crate::mpmc_v2::core::verif_k_mpmc_core::stub_hm_lock_slow)]
-#[kani::stub(std::thread::park, crate::verif_k_stubs::stub_park)]
-#[kani::stub(std::thread::park_timeout, crate::verif_k_stubs::stub_park_timeout)]
-#[kani::stub(std::time::Instant::now, stub_instant_now)]
-#[kani::unwind(6)]
-fn ob_c04_mpmc_gate_async_sender_try_send_batch() { gate_async_sender(2); }
-
-// @obligation id=c04.mpmc.gate.AsyncSender.send_batch props=C04,C01 kind=hist tier=quick bound="bounded(1), empty for sender gates and holding one item (any u8) for receiver gates and conversions, side counts raised to 2 so that nothing disconnects; closed AsyncSender, one call (futures polled once) of send_batch"
-#[kani::proof]
-#[kani::stub(std::thread::current::current, crate::verif_k_stubs::stub_thread_current)]
-#[kani::stub(parking_lot::RawMutex::lock_slow, crate::verif_k_stubs::stub_lock_slow)]
-#[kani::stub(parking_lot::RawMutex::unlock_slow, crate::verif_k_stubs::stub_unlock_slow)]
-#[kani::stub(crate::sync::mutex::HybridMutex::lock_slow, crate::mpmc_v2::core::verif_k_mpmc_core::stub_hm_lock_slow)]
-#[kani::stub(std::thread::park, crate::verif_k_stubs::stub_park)]
-#[kani::stub(std::thread::park_timeout, crate::verif_k_stubs::stub_park_timeout)]
-#[kani::stub(std::time::Instant::now, stub_instant_now)]
-#[kani::unwind(6)]
-fn ob_c04_mpmc_gate_async_sender_send_batch() { gate_async_sender(3); }
-
-// @obligation id=c04.mpmc.gate.AsyncSender.try_send_batch_mut props=C04,C01 kind=hist tier=quick bound="bounded(1), empty for sender gates and holding one item (any u8) for receiver gates and conversions, side counts raised to 2 so that nothing disconnects; closed AsyncSender, one call (futures polled once) of try_send_batch_mut"
-#[kani::proof]
-#[kani::stub(std::thread::current::current, crate::verif_k_stubs::stub_thread_current)]
-#[kani::stub(parking_lot::RawMutex::lock_slow, crate::verif_k_stubs::stub_lock_slow)]
-#[kani::stub(parking_lot::RawMutex::unlock_slow, crate::verif_k_stubs::stub_unlock_slow)]
-#[kani::stub(crate::sync::mutex::HybridMutex::lock_slow, crate::mpmc_v2::core::verif_k_mpmc_core::stub_hm_lock_slow)]
-#[kani::stub(std::thread::park, crate::verif_k_stubs::stub_park)]
-#[kani::stub(std::thread::park_timeout, crate::verif_k_stubs::stub_park_timeout)]
-#[kani::stub(std::time::Instant::now, stub_instant_now)]
-#[kani::unwind(6)]
-fn ob_c04_mpmc_gate_async_sender_try_send_batch_mut() { gate_async_sender(4); }
-
-// @obligation id=c04.mpmc.gate.AsyncSender.send_batch_mut props=C04,C01 kind=hist tier=quick bound="bounded(1), empty for sender gates and holding one item (any u8) for receiver gates and conversions, side counts raised to 2 so that nothing disconnects; closed AsyncSender, one call (futures polled once) of send_batch_mut"
-#[kani::proof]
-#[kani::stub(std::thread::current::current, crate::verif_k_stubs::stub_thread_current)]
-#[kani::stub(parking_lot::RawMutex::lock_slow, crate::verif_k_stubs::stub_lock_slow)]
-#[kani::stub(parking_lot::RawMutex::unlock_slow, crate::verif_k_stubs::stub_unlock_slow)]
-#[kani::stub(crate::sync::mutex::HybridMutex::lock_slow, crate::mpmc_v2::core::verif_k_mpmc_core::stub_hm_lock_slow)]
-#[kani::stub(std::thread::park, crate::verif_k_stubs::stub_park)]
-#[kani::stub(std::thread::park_timeout, crate::verif_k_stubs::stub_park_timeout)]
-#[kani::stub(std::time::Instant::now, stub_instant_now)]
-#[kani::unwind(6)]
-fn ob_c04_mpmc_gate_async_sender_send_batch_mut() { gate_async_sender(5); }
-
-// @obligation id=c04.mpmc.gate.AsyncSender.close2 props=C04,C01 kind=hist tier=quick bound="bounded(1), empty for sender gates and holding one item (any u8) for receiver gates and conversions, side counts raised to 2 so that nothing disconnects; closed AsyncSender, one call (futures polled once) of close2"
-#[kani::proof]
-#[kani::stub(std::thread::current::current, crate::verif_k_stubs::stub_thread_current)]
-#[kani::stub(parking_lot::RawMutex::lock_slow, crate::verif_k_stubs::stub_lock_slow)]
-#[kani::stub(parking_lot::RawMutex::unlock_slow, crate::verif_k_stubs::stub_unlock_slow)]
-#[kani::stub(crate::sync::mutex::HybridMutex::lock_slow, crate::mpmc_v2::core::verif_k_mpmc_core::stub_hm_lock_slow)]
-#[kani::stub(std::thread::park, crate::verif_k_stubs::stub_park)]
-#[kani::stub(std::thread::park_timeout, crate::verif_k_stubs::stub_park_timeout)]
-#[kani::stub(std::time::Instant::now, stub_instant_now)]
-#[kani::unwind(6)]
-fn ob_c04_mpmc_gate_async_sender_close2() { gate_async_sender(6); }
-
-// @obligation id=c04.mpmc.gate.AsyncReceiver.try_recv props=C04,C01 kind=hist tier=quick bound="bounded(1), empty for sender gates and holding one item (any u8) for receiver gates and conversions, side counts raised to 2 so that nothing disconnects; closed AsyncReceiver, one call (futures polled once) of try_recv"
-#[kani::proof]
-#[kani::stub(std::thread::current::current, crate::verif_k_stubs::stub_thread_current)]
-#[kani::stub(parking_lot::RawMutex::lock_slow, crate::verif_k_stubs::stub_lock_slow)]
-#[kani::stub(parking_lot::RawMutex::unlock_slow, crate::verif_k_stubs::stub_unlock_slow)]
-#[kani::stub(crate::sync::mutex::HybridMutex::lock_slow, crate::mpmc_v2::core::verif_k_mpmc_core::stub_hm_lock_slow)]
-#[kani::stub(std::thread::park, crate::verif_k_stubs::stub_park)]
-#[kani::stub(std::thread::park_timeout, crate::verif_k_stubs::stub_park_timeout)]
-#[kani::stub(std::time::Instant::now, stub_instant_now)]
-#[kani::unwind(6)]
-fn ob_c04_mpmc_gate_async_receiver_try_recv() { gate_async_receiver(0); }
-
-// @obligation id=c04.mpmc.gate.AsyncReceiver.recv props=C04,C01 kind=hist tier=quick bound="bounded(1), empty for sender gates and holding one item (any u8) for receiver gates and conversions, side counts raised to 2 so that nothing disconnects; closed AsyncReceiver, one call (futures polled once) of recv"
-#[kani::proof]
-#[kani::stub(std::thread::current::current, crate::verif_k_stubs::stub_thread_current)]
-#[kani::stub(parking_lot::RawMutex::lock_slow, crate::verif_k_stubs::stub_lock_slow)]
-#[kani::stub(parking_lot::RawMutex::unlock_slow, crate::verif_k_stubs::stub_unlock_slow)]
-#[kani::stub(crate::sync::mutex::HybridMutex::lock_slow, crate::mpmc_v2::core::verif_k_mpmc_core::stub_hm_lock_slow)]
-#[kani::stub(std::thread::park, crate::verif_k_stubs::stub_park)]
-#[kani::stub(std::thread::park_timeout, crate::verif_k_stubs::stub_park_timeout)]
-#[kani::stub(std::time::Instant::now, stub_instant_now)]
-#[kani::unwind(6)]
-fn ob_c04_mpmc_gate_async_receiver_recv() { gate_async_receiver(1); }
-
-// @obligation id=c04.mpmc.gate.AsyncReceiver.try_recv_batch props=C04,C01 kind=hist tier=quick bound="bounded(1), empty for sender gates and holding one item (any u8) for receiver gates and conversions, side counts raised to 2 so that nothing disconnects; closed AsyncReceiver, one call (futures polled once) of try_recv_batch"
-#[kani::proof]
-#[kani::stub(std::thread::current::current, crate::verif_k_stubs::stub_thread_current)]
-#[kani::stub(parking_lot::RawMutex::lock_slow, crate::verif_k_stubs::stub_lock_slow)]
-#[kani::stub(parking_lot::RawMutex::unlock_slow, crate::verif_k_stubs::stub_unlock_slow)]
-#[kani::stub(crate::sync::mutex::HybridMutex::lock_slow, crate::mpmc_v2::core::verif_k_mpmc_core::stub_hm_lock_slow)]
-#[kani::stub(std::thread::park, crate::verif_k_stubs::stub_park)]
-#[kani::stub(std::thread::park_timeout, crate::verif_k_stubs::stub_park_timeout)]
-#[kani::stub(std::time::Instant::now, stub_instant_now)]
-#[kani::unwind(6)]
-fn ob_c04_mpmc_gate_async_receiver_try_recv_batch() { gate_async_receiver(2); }
-
-// @obligation id=c04.mpmc.gate.AsyncReceiver.try_recv_batch_mut props=C04,C01 kind=hist tier=quick bound="bounded(1), empty for sender gates and holding one item (any u8) for receiver gates and conversions, side counts raised to 2 so that nothing disconnects; closed AsyncReceiver, one call (futures polled once) of try_recv_batch_mut"
-#[kani::proof]
-#[kani::stub(std::thread::current::current, crate::verif_k_stubs::stub_thread_current)]
-#[kani::stub(parking_lot::RawMutex::lock_slow, crate::verif_k_stubs::stub_lock_slow)]
-#[kani::stub(parking_lot::RawMutex::unlock_slow, crate::verif_k_stubs::stub_unlock_slow)]
-#[kani::stub(crate::sync::mutex::HybridMutex::lock_slow, crate::mpmc_v2::core::verif_k_mpmc_core::stub_hm_lock_slow)]
-#[kani::stub(std::thread::park, crate::verif_k_stubs::stub_park)]
-#[kani::stub(std::thread::park_timeout, crate::verif_k_stubs::stub_park_timeout)]
-#[kani::stub(std::time::Instant::now, stub_instant_now)]
-#[kani::unwind(6)]
-fn ob_c04_mpmc_gate_async_receiver_try_recv_batch_mut() { gate_async_receiver(3); }
-
-// @obligation id=c04.mpmc.gate.AsyncReceiver.recv_batch props=C04,C01 kind=hist tier=quick bound="bounded(1), empty for sender gates and holding one item (any u8) for receiver gates and conversions, side counts raised to 2 so that nothing disconnects; closed AsyncReceiver, one call (futures polled once) of recv_batch"
-#[kani::proof]
-#[kani::stub(std::thread::current::current, crate::verif_k_stubs::stub_thread_current)]
-#[kani::stub(parking_lot::RawMutex::lock_slow, crate::verif_k_stubs::stub_lock_slow)]
-#[kani::stub(parking_lot::RawMutex::unlock_slow, crate::verif_k_stubs::stub_unlock_slow)]
-#[kani::stub(crate::sync::mutex::HybridMutex::lock_slow, crate::mpmc_v2::core::verif_k_mpmc_core::stub_hm_lock_slow)]
-#[kani::stub(std::thread::park, crate::verif_k_stubs::stub_park)]
-#[kani::stub(std::thread::park_timeout, crate::verif_k_stubs::stub_park_timeout)]
-#[kani::stub(std::time::Instant::now, stub_instant_now)]
-#[kani::unwind(6)]
-fn ob_c04_mpmc_gate_async_receiver_recv_batch() { gate_async_receiver(4); }
-
-// @obligation id=c04.mpmc.gate.AsyncReceiver.recv_batch_mut props=C04,C01 kind=hist tier=quick bound="bounded(1), empty for sender gates and holding one item (any u8) for receiver gates and conversions, side counts raised to 2 so that nothing disconnects; closed AsyncReceiver, one call (futures polled once) of recv_batch_mut"
-#[kani::proof]
-#[kani::stub(std::thread::current::current, crate::verif_k_stubs::stub_thread_current)]
-#[kani::stub(parking_lot::RawMutex::lock_slow, crate::verif_k_stubs::stub_lock_slow)]
-#[kani::stub(parking_lot::RawMutex::unlock_slow, crate::verif_k_stubs::stub_unlock_slow)]
-#[kani::stub(crate::sync::mutex::HybridMutex::lock_slow, crate::mpmc_v2::core::verif_k_mpmc_core::stub_hm_lock_slow)]
-#[kani::stub(std::thread::park, crate::verif_k_stubs::stub_park)]
-#[kani::stub(std::thread::park_timeout, crate::verif_k_stubs::stub_park_timeout)]
-#[kani::stub(std::time::Instant::now, stub_instant_now)]
-#[kani::unwind(6)]
-fn ob_c04_mpmc_gate_async_receiver_recv_batch_mut() { gate_async_receiver(5); }
-
-// @obligation id=c04.mpmc.gate.AsyncReceiver.close2 props=C04,C01 kind=hist tier=quick bound="bounded(1), empty for sender gates and holding one item (any u8) for receiver gates and conversions, side counts raised to 2 so that nothing disconnects; closed AsyncReceiver, one call (futures polled once) of close2"
-#[kani::proof]
-#[kani::stub(std::thread::current::current, crate::verif_k_stubs::stub_thread_current)]
-#[kani::stub(parking_lot::RawMutex::lock_slow, crate::verif_k_stubs::stub_lock_slow)]
-#[kani::stub(parking_lot::RawMutex::unlock_slow, crate::verif_k_stubs::stub_unlock_slow)]
-#[kani::stub(crate::sync::mutex::HybridMutex::lock_slow, crate::mpmc_v2::core::verif_k_mpmc_core::stub_hm_lock_slow)]
-#[kani::stub(std::thread::park, crate::verif_k_stubs::stub_park)]
-#[kani::stub(std::thread::park_timeout, crate::verif_k_stubs::stub_park_timeout)]
-#[kani::stub(std::time::Instant::now, stub_instant_now)]
-#[kani::unwind(6)]
-fn ob_c04_mpmc_gate_async_receiver_close2() { gate_async_receiver(6); }
+fn ob_c04_mpmc_gate_async_receiver() { gate_async_receiver(); }
 
 // @obligation id=c04.mpmc.conv.Sender.closed props=C04,C01 kind=hist tier=quick bound="bounded(1), empty for sender gates and holding one item (any u8) for receiver gates and conversions, side counts raised to 2 so that nothing disconnects; close, to_async, try_send, close, drop"
 #[kani::proof]
@@ -686,7 +374,7 @@ fn ob_c04_mpmc_conv_async_sender_closed() { conv_async_sender_closed(); }
 #[kani::unwind(6)]
 fn ob_c04_mpmc_conv_async_receiver_closed() { conv_async_receiver_closed(); }
 
-// @obligation id=c04.mpmc.count.senders.drop props=C04 kind=hist tier=quick bound="bounded(1), two sender clones, drop one then the other; drain then Disconnected"
+// @obligation id=c04.mpmc.count.senders.drop props=C04 kind=hist tier=thorough bound="bounded(1), two sender clones, drop one then the other; drain then Disconnected"
 #[kani::proof]
 #[kani::stub(std::thread::current::current, crate::verif_k_stubs::stub_thread_current)]
 #[kani::stub(parking_lot::RawMutex::lock_slow, crate::verif_k_stubs::stub_lock_slow)]
@@ -710,7 +398,7 @@ fn ob_c04_mpmc_count_senders_drop() { count_senders(true); }
 #[kani::unwind(6)]
 fn ob_c04_mpmc_count_senders_close() { count_senders(false); }
 
-// @obligation id=c04.mpmc.count.receivers.drop props=C04 kind=hist tier=quick bound="bounded(1), two receiver clones, drop one then the other; every send form reports Closed with the value"
+// @obligation id=c04.mpmc.count.receivers.drop props=C04 kind=hist tier=thorough bound="bounded(1), two receiver clones, drop one then the other; try_send / try_send_batch_mut report Closed with the value"
 #[kani::proof]
 #[kani::stub(std::thread::current::current, crate::verif_k_stubs::stub_thread_current)]
 #[kani::stub(parking_lot::RawMutex::lock_slow, crate::verif_k_stubs::stub_lock_slow)]
@@ -722,7 +410,7 @@ fn ob_c04_mpmc_count_senders_close() { count_senders(false); }
 #[kani::unwind(6)]
 fn ob_c04_mpmc_count_receivers_drop() { count_receivers(true); }
 
-// @obligation id=c04.mpmc.count.receivers.close props=C04 kind=hist tier=quick bound="bounded(1), two receiver clones, close one then the other"
+// @obligation id=c04.mpmc.count.receivers.close props=C04 kind=hist tier=thorough bound="bounded(1), two receiver clones, close one then the other"
 #[kani::proof]
 #[kani::stub(std::thread::current::current, crate::verif_k_stubs::stub_thread_current)]
 #[kani::stub(parking_lot::RawMutex::lock_slow, crate::verif_k_stubs::stub_lock_slow)]
@@ -733,4 +421,3 @@ fn ob_c04_mpmc_count_receivers_drop() { count_receivers(true); }
 #[kani::stub(std::time::Instant::now, stub_instant_now)]
 #[kani::unwind(6)]
 fn ob_c04_mpmc_count_receivers_close() { count_receivers(false); }
-
